@@ -21,6 +21,9 @@ func init() {
 
 func runC02(c *Ctx) {
 	p := c.P
+	// "with their credits intact": a credit carried from one store to the other keeps its change / spent markers —
+	// every flag handed to a value builder or tested comes from the bit of that name (C13-R4's flag typing, taken over)
+	runFlagTyping(c, "C02-R3")
 	// R1
 	ins := wtxFn(c, "C02-R1", "insertMinedTx")
 	rds := wtxFn(c, "C02-R1", "removeDoubleSpends")
@@ -148,6 +151,7 @@ func checkRollbackWalk(c *Ctx, rule string) {
 		c.Unresolved(rule, "wtxmgr.Store.Rollback")
 	}
 	checkRepositionSeeksGivenPosition(c, rule)
+	checkCreditExistenceNotJudgedByAmount(c, rule)
 	// an iterator is repositioned at the record it is standing on (after nested cursors moved it away), not at some other
 	// key: repositioning at the rollback target lands the next prev() below the target and ends the walk after one block
 	if rbf := wtxFn(c, rule, "rollback"); rbf != nil {
@@ -235,4 +239,65 @@ func checkRepositionSeeksGivenPosition(c *Ctx, rule string) {
 			fnName(fn)+" does not put the cursor back on the position it is given ("+detail+"): the step that follows skips a record — a rollback over consecutive heights leaves every other block connected")
 	}
 	c.Floor(rule, "iterator reposition methods", n, 1)
+}
+
+// checkCreditExistenceNotJudgedByAmount: while a block is rolled back, the credit an input spent is marked unspent again
+// unless that credit was itself removed earlier in the same rollback. Whether it still exists must be asked of the
+// store: the AMOUNT the un-spend helper returns cannot tell, because a wallet output can be worth zero. A branch on that
+// amount ("0 means gone") skips the restore for a genuine zero-value credit: after the rollback it is in neither the
+// unspent index nor flagged spent, its spender shows no debit for it, and the history differs from the directly built one.
+func checkCreditExistenceNotJudgedByAmount(c *Ctx, rule string) {
+	p := c.P
+	rb := wtxFn(c, rule, "rollback")
+	if rb == nil {
+		return
+	}
+	n := 0
+	for _, f := range p.regionTop(rb) {
+		calls := callsNamed(f, "unspendRawCredit")
+		if len(calls) == 0 {
+			continue
+		}
+		n += len(calls)
+		isAmount := func(v ssa.Value) bool {
+			for _, o := range (&Slicer{P: p, KeepExtract: true}).Origins(v) {
+				if ex, ok := o.(*ssa.Extract); ok && ex.Index == 0 {
+					for _, call := range calls {
+						if ex.Tuple == ssa.Value(call) {
+							return true
+						}
+					}
+				}
+			}
+			return false
+		}
+		var bad *ssa.If
+		for _, b := range f.Blocks {
+			if len(b.Instrs) == 0 {
+				continue
+			}
+			iff, ok := b.Instrs[len(b.Instrs)-1].(*ssa.If)
+			if !ok {
+				continue
+			}
+			inner, _ := unwrapNot(iff.Cond)
+			bo, ok := inner.(*ssa.BinOp)
+			if !ok {
+				continue
+			}
+			_, kx := stripConv(bo.X).(*ssa.Const)
+			_, ky := stripConv(bo.Y).(*ssa.Const)
+			if (ky && isAmount(bo.X)) || (kx && isAmount(bo.Y)) {
+				bad = iff
+			}
+		}
+		pos := calls[0].Pos()
+		detail := ""
+		if bad != nil {
+			pos = bad.Cond.Pos()
+			detail = fnName(f) + " decides from the AMOUNT returned by unspendRawCredit whether the credit still exists (test at " + p.Pos(bad.Cond.Pos()) + "): a wallet output worth zero is taken for a removed one and is not put back into the unspent index — after the rollback it is neither unspent nor spent, and its spender's debit is gone"
+		}
+		c.Check(rule, "credit-existence-not-judged-by-amount:"+f.Name(), pos, bad == nil, detail)
+	}
+	c.Floor(rule, "un-spend sites in rollback", n, 1)
 }
